@@ -80,6 +80,8 @@ def run(ctx):
     ctx.trusted += ["the recording classifier (its state is the list of batches shown to it); sklearn's clone/deepcopy"]
     ctx.assume += ["native partial_fit + enforce_unique_samples is documented by the wrapper (warning) as not guaranteeing uniqueness: only the duplicate check is compared there"]
     ctx.coq_props()
+    from ..kcache import kcache_correspondence
+    kcache_correspondence(ctx)
     rng = ctx.rng("c19")
     terms, meta = [], []
     for h in range(250 if ctx.is_quick else 4000):
